@@ -174,6 +174,8 @@ impl SymbolMap {
     /// `name` is the name of a record that a defm defines (the name of the defm followed by what
     /// the record is called in the multiclass).
     pub fn add_defm_record_name(&mut self, name: EcoString) {
+        #[cfg(feature = "verif")]
+        crate::verif::walk_step();
         self.defm_record_names.insert(name);
     }
 
